@@ -32,7 +32,7 @@ BUDGET_S = {"quick": 45, "thorough": 1200}
 
 CLASSES: dict[str, type] = {}
 VOCAB: dict[str, dict] = {}
-SAMPLES = ["x", "1", "10", "10px", "50%", "left", "center", "a b", "python", "name", "0", "-1", "1.5", "auto", "yes", "1,2", "1 2", "a, b", "utf-8", "*", "html"]
+SAMPLES = ["10\u00a0km", "Mount\u3000Fuji", "a\u2009b", "x", "1", "10", "10px", "50%", "left", "center", "a b", "python", "name", "0", "-1", "1.5", "auto", "yes", "1,2", "1 2", "a, b", "utf-8", "*", "html"]
 
 
 def collect_classes():
@@ -138,6 +138,9 @@ def lines_for(key):
 
 class ModelResult:
     pass
+
+
+SIMPLE_OPT = re.compile(r"([A-Za-z][A-Za-z0-9_-]*):(?: +([^ \t\n\r](?:[^\t\n\r]*[^ \t\n\r])?))? *$")
 
 
 def lf_lines(text):
@@ -293,6 +296,28 @@ def eval_split(ctx, case):
         ctx.count("arg_errors")
         return
     lay = layout_class(content, m)
+    # option blocks made only of simple one-line 'key: plain value' entries have an obvious reading that needs no tokenizer: the unvalidated split must return it
+    if m.has_block and m.opt_lines is not None:
+        ol = [l if content.startswith("---") else l.lstrip()[1:] for l in m.opt_lines]
+        simple = []
+        for l in ol:
+            mm = SIMPLE_OPT.match(l)
+            if not mm or (mm.group(2) or "")[:1] in "&*!|>'\"%@`{}[],-?#:" or " #" in (mm.group(2) or "") or ": " in (mm.group(2) or "") or (mm.group(2) or "").endswith(":"):
+                simple = None
+                break
+            simple.append((mm.group(1), mm.group(2) or ""))
+        if simple and len({k for k, _ in simple}) == len(simple):
+            from myst_parser.parsers.options import TokenizeError as _TE
+            from myst_parser.parsers.options import options_to_items as _o2i
+
+            try:
+                got_items = [(k, v) for k, v in _o2i("\n".join(ol))[0]]
+            except _TE as e:
+                got_items = f"TokenizeError: {e}"
+            ctx.count("simple_option_blocks_checked")
+            if got_items != simple:
+                ctx.violation("options:simple-key-value-lines-misread", f"the option lines {ol!r} are plain 'key: value' entries {simple!r}; the option reader gives {got_items!r}", case)
+                return
     # the same text split WITHOUT option validation (validate_options=False: the block is read as YAML): arguments, body and offset are the same split
     if case.get("novalidate") or (len(content) + len(first)) % 5 == 0:
         try:
